@@ -922,10 +922,9 @@ def publish_failure_as_status(fn_node):
             if not set(names) & _BROAD_OS:
                 continue
             raises = any(isinstance(n, ast.Raise) for s in h.body for n in ast.walk(s))
-            inspects = h.name is not None and any(isinstance(n, ast.Name) and n.id == h.name and not isinstance(getattr(n, "_parent", None), ast.FormattedValue)
-                                                  and isinstance(getattr(n, "_parent", None), (ast.Attribute, ast.Compare, ast.Call)) and not (
-                                                      isinstance(n._parent, ast.Call) and A.unparse(n._parent.func).split(".")[0] in ("logger", "logging", "str", "repr"))
-                                                  for s in h.body for n in ast.walk(s))
+            # "looks at the error" = the exception object takes part in a test (errno filter, isinstance); showing it in a message does not count
+            inspects = h.name is not None and any(isinstance(n, ast.Name) and n.id == h.name for st_ in h.body for i_ in ast.walk(st_)
+                                                  if isinstance(i_, (ast.If, ast.IfExp, ast.While)) for n in ast.walk(i_.test))
             if not raises and not inspects and not all(isinstance(s, ast.Pass) for s in h.body):
                 out.append((h, f"publish-failure-as-status:{A.unparse(ren[0].func)}", f"`except {', '.join(names)}` around `{A.unparse(ren[0])[:50]}` neither re-raises nor looks at the error: "
                             f"a failed rename (the step that puts the new state in place) is reduced to a log line / return value, and what follows treats the new state as present"))
@@ -1130,4 +1129,67 @@ def conditional_reraise(fn_node):
                 if not mentions_exc and not others_raise and not policy_flag:
                     out.append((last, "conditional-reraise", f"the handler's bare `raise` sits under `if {A.unparse(last.test)[:50]}`, a condition unrelated to the exception: when it is false "
                                 f"the handler falls through and the failure is silently swallowed"))
+    return out
+
+
+def loop_variable_reused(fn_node):
+    """``for x in items: ... for n, x in pending[x]: ...`` — an inner loop's target rebinds the outer loop's variable: after the
+    inner loop (and from its second turn on) the outer variable holds an inner element, and what follows in the outer body
+    works on the wrong object."""
+    out = []
+    for outer in [n for n in ast.walk(fn_node) if isinstance(n, ast.For)]:
+        outer_names = set(A.assigned_names(outer.target))
+        for inner in [n for s in outer.body for n in ast.walk(s) if isinstance(n, ast.For)]:
+            if isinstance(inner.iter, ast.Name) and any(isinstance(n, ast.Name) and n.id == inner.iter.id for n in ast.walk(outer.iter)):
+                continue  # the inner loop deliberately continues on the iterator the outer loop walks
+            clash = outer_names & set(A.assigned_names(inner.target))
+            for name in sorted(clash):
+                # only when the outer body still reads the name after the inner loop
+                after = False
+                for s in outer.body:
+                    for n in ast.walk(s):
+                        if isinstance(n, ast.Name) and n.id == name and isinstance(n.ctx, ast.Load) and getattr(n, "lineno", 0) > (inner.end_lineno or inner.lineno):
+                            after = True
+                if after or any(isinstance(n, ast.Name) and n.id == name for n in ast.walk(inner.iter)):
+                    out.append((inner, f"loop-variable-reused:{name}", f"the inner `for {A.unparse(inner.target)} in {A.unparse(inner.iter)[:40]}` rebinds `{name}`, the variable of the enclosing "
+                                f"`for {A.unparse(outer.target)} in …` loop: after the inner loop the outer body continues with an inner element in `{name}`"))
+    return out
+
+
+_ITEM_ERRORS = {"AttributeError", "KeyError", "ValueError", "TypeError", "IndexError", "LookupError"}
+
+
+def item_error_around_loop(fn_node):
+    """``try: for x in xs: use(x.attr)  except AttributeError: pass`` — an error that comes from handling ONE item is caught
+    around the whole loop: the first such item ends the loop, the items after it are skipped without a trace."""
+    out = []
+    for t in ast.walk(fn_node):
+        if not isinstance(t, ast.Try) or len(t.body) != 1 or not isinstance(t.body[0], (ast.For, ast.While)):
+            continue
+        for h in t.handlers:
+            names = set(_handler_names(h))
+            if names and names <= _ITEM_ERRORS and _can_fall_through(h.body) and not any(isinstance(n, (ast.Raise, ast.Return)) for s in h.body for n in ast.walk(s)):
+                out.append((t, "item-error-around-loop", f"`except {', '.join(sorted(names))}` (which swallows) encloses the whole `{A.unparse(t.body[0]).splitlines()[0][:60]}` loop: "
+                            f"the first item that raises ends the loop and every later item is skipped silently"))
+    return out
+
+
+def loop_target_clobbers(fn_node):
+    """``repo = pick(); ... for repo in installed: ...; use(repo)`` — a loop reuses, as its loop variable, a name that was
+    bound to something else before the loop and is read again after it: past the loop the name holds the last element (or the
+    old value when the loop did not run), and the later code silently works on the wrong object."""
+    out = []
+    for loop in [n for n in ast.walk(fn_node) if isinstance(n, ast.For)]:
+        for name in set(A.assigned_names(loop.target)):
+            before = [st for st in ast.walk(fn_node) if isinstance(st, ast.Assign) and any(isinstance(t, ast.Name) and t.id == name for t in st.targets)
+                      and st.lineno < loop.lineno and isinstance(st.value, (ast.Call, ast.Attribute, ast.Subscript))]
+            if not before:
+                continue
+            end = loop.end_lineno or loop.lineno
+            reads = [n for n in ast.walk(fn_node) if isinstance(n, ast.Name) and n.id == name and isinstance(n.ctx, ast.Load) and n.lineno > end]
+            rebinds = [n for n in ast.walk(fn_node) if isinstance(n, ast.Name) and n.id == name and isinstance(n.ctx, ast.Store) and n.lineno > end]
+            other = [l2 for l2 in ast.walk(fn_node) if isinstance(l2, ast.For) and l2 is not loop and name in A.assigned_names(l2.target)]
+            if reads and not rebinds and not other:
+                out.append((loop, f"loop-target-clobbers:{name}", f"`for {A.unparse(loop.target)} in {A.unparse(loop.iter)[:40]}` reuses `{name}`, which was bound at line {before[0].lineno} "
+                            f"(`{A.unparse(before[0])[:50]}`) and is read again at line {reads[0].lineno}: after the loop the name no longer holds that value"))
     return out
